@@ -41,6 +41,7 @@ func main() {
 	if pool == nil {
 		pool = kslib.BuildPool()
 	}
+	extraKeys(pool)
 	timed("legacy", func() { e.sectionLegacy(seed) })
 	timed("subtle", func() { e.sectionSubtle(seed) })
 	timed("pool", func() { e.sectionPool(pool, seed) })
